@@ -361,6 +361,18 @@ def run(ctx):
     for nm in ("manual_memory::grow", "manual_memory::shrink", "manual_memory::shift", "manual_memory::raw"):
         g = fx(ctx, nm)
         ctx.fixture("R06.8", nm, g is not None and bool(manual_memory_hits(g)), True, "manual memory recognised")
+    # range-algorithm writes: recognised, and the bound is decided both ways
+    bw = prog.cls("vfix::bulk_writer")
+    for nm, want in (("bulk_writer::refill_bounded", True), ("bulk_writer::copy_unbounded", False)):
+        g = fx(ctx, nm)
+        got = None
+        if g is not None and bw is not None:
+            fa = FVAnalysis(ctx, g, bw)
+            fa.run(invariant(Zone()))
+            evs = [(z, extra) for (kind, node, z, b, e, extra) in fa.events if kind == "bulk_write"]
+            if len(evs) == 1:
+                got = bulk_bound(evs[0][0], *evs[0][1])[0]
+        ctx.fixture("R06.3", nm, got is not None and got == want, True, "range-algorithm write into the storage %s" % ("proved in bounds" if want else "flagged as unbounded"))
     if not manual:
         ctx.ok("R06.8", FV, "no-manual-memory", "%d member functions scanned" % len(methods), "%s:%d" % (cls["file"], cls["line"]))
 
@@ -488,22 +500,7 @@ def run(ctx):
                 continue
             dst, ln = extra
             n_bulk[0] += 1
-            hi_ok = False
-            if ln is not None and ln[0] == "$end":
-                endo = ln[1]
-                hi_ok = endo is not None and (z.entails(endo[0], "capacity_", -endo[1]) if endo[0] != Z else z.entails(Z, "capacity_", -endo[1]))
-                desc = "[%s, %s)" % (_show_t(dst), _show_t(endo))
-            elif ln is not None:
-                desc = "[%s, %s + %s)" % (_show_t(dst), _show_t(dst), _show_t(ln))
-                # dst + len <= capacity_
-                if dst[0] == Z:
-                    hi_ok = z.entails(ln[0], "capacity_", -(ln[1] + dst[1])) if ln[0] != Z else z.entails(Z, "capacity_", -(ln[1] + dst[1]))
-                elif ln[0] == Z:
-                    hi_ok = z.entails(dst[0], "capacity_", -(ln[1] + dst[1]))
-                else:
-                    hi_ok = False
-            else:
-                desc = "[%s, ?)" % _show_t(dst)
+            hi_ok, desc = bulk_bound(z, dst, ln)
             ctx.check(bool(hi_ok), "R06.3", f, "bulk-write-in-bounds:%s@%s" % (tag, node.get("ln")),
                       "%s writes the slots %s with %s and `end <= capacity_` is not provable [known there: %s]" % (short(f.qual), desc, short(node.get("name") or ""), z.show()[:160]), (f, node.get("ln")))
         # writes that are justified by capacity_ alone (not below size_) need the storage to exist whenever capacity_ > 0
@@ -767,3 +764,21 @@ def _show_t(t):
 
 def C06_sig(f):
     return _sig(f)
+
+
+def bulk_bound(z, dst, ln):
+    """is `end of the written range <= capacity_` provable in zone z? returns (ok, description of the range)"""
+    hi_ok = False
+    if ln is not None and ln[0] == "$end":
+        endo = ln[1]
+        hi_ok = endo is not None and (z.entails(endo[0], "capacity_", -endo[1]) if endo[0] != Z else z.entails(Z, "capacity_", -endo[1]))
+        desc = "[%s, %s)" % (_show_t(dst), _show_t(endo))
+    elif ln is not None:
+        desc = "[%s, %s + %s)" % (_show_t(dst), _show_t(dst), _show_t(ln))
+        if dst[0] == Z:
+            hi_ok = z.entails(ln[0], "capacity_", -(ln[1] + dst[1])) if ln[0] != Z else z.entails(Z, "capacity_", -(ln[1] + dst[1]))
+        elif ln[0] == Z:
+            hi_ok = z.entails(dst[0], "capacity_", -(ln[1] + dst[1]))
+    else:
+        desc = "[%s, ?)" % _show_t(dst)
+    return bool(hi_ok), desc
